@@ -183,6 +183,11 @@ def gen_using(tier, rng):
                     vals.append(rng.choice(nums))
             hs.append([{"dev": rng.choice(DEVS), "using": f, "vals": vals, "semi": rng.random() < 0.3},
                        {"dev": "scr", "items": [ITEMS[10]]}])
+    # every number of the alphabet through every comma / decimal field that is wide enough, one at a time
+    wide = [S(h) for h in ("###,###", "#,###,###", "##,###.##", "########", "####.#", "#,###", "-###,###", "[##,###]")]
+    for f in wide:
+        for v in nums + [num_item(-123), num_item(-123456, "L"), num_item(-1000), num_item(999), num_item(-99)]:
+            hs.append([{"dev": "scr", "using": f, "vals": [v], "semi": False}])
     # sequences of PRINT USING statements: every statement starts at the beginning of ITS format, whatever the
     # previous one left (fewer values than fields, formats of different lengths, other devices in between)
     multi = [S(h) for h in ("A: # B: #", "###", "##.##", "Total: ####", "<\\  \\>", "## and ## and ##", "!x!", "#,### #", "x## y##")]
